@@ -47,6 +47,7 @@ def _writable(specs):
 def generate(seed, tier, index):
     rng = random.Random(seed)
     thorough = tier == "thorough"
+    G.SPICY_NAMES[0] = rng.random() < 0.2  # property / element / group names with blanks, markup and non-ASCII characters
     ndev = rng.choice([1, 2, 2, 3])
     specs = []
     for i in range(ndev):
